@@ -434,7 +434,7 @@ def rename_bases():
 def rename_variants(ctx):
     out = []
     for bi, base in enumerate(rename_bases()):
-        roles = {'state': ['A', 'B'], 'super': ['G'] if bi == 0 else [], 'event': ['go'], 'hook': ['g1', 'g3', 'u2', 'w1'] if bi == 0 else ['g1'],
+        roles = {'state': ['A', 'B'], 'super': ['G'] if bi == 0 else [], 'event': ['go'], 'hook': ['g1', 'g3', 'u2', 'w1', 'b1', 'a1'] if bi == 0 else (['g1', 'b1', 'a1', 'u1', 'w1'] if bi == 1 else ['g1']),
                  'name': ['M']}
         for role, olds in roles.items():
             pool = ADV_TYPES if role in ('state', 'super', 'name') else ADV_VALUES
